@@ -64,6 +64,7 @@ type keyCase struct {
 	DECKPAM bool   `json:"deckpam"`
 	Written string `json:"written,omitempty"`
 	Locks   string `json:"locks,omitempty"`
+	Between string `json:"between_modes_and_key,omitempty"`
 }
 
 var named = []struct {
@@ -185,6 +186,14 @@ func runKeys(w *harness.W, s spec) {
 				kp = "\x1b="
 			}
 			setModes(m, onoff(1, kc.DECCKM), kp)
+			// things a child does between choosing its modes and reading a key
+			// that must not touch the cursor-key / keypad modes
+			between := []string{"", "\x1b8", "\x1b7\x1b8", "\x1b[s\x1b[u", "\x1b[?6h\x1b7\x1b[?6l\x1b8", "\x1b[?1049h\x1b[?1049l", "\x1b[2;5r\x1b[r", "\x1b[4h\x1b[4l"}[i%8]
+			if between != "" {
+				term.VerifFeed(m, []byte(between), nil)
+				term.VerifTakeReplies(m)
+				kc.Between = fmt.Sprintf("%q", between)
+			}
 			k := vaxis.Key{Keycode: kc.Keycode, Modifiers: vaxis.ModifierMask(kc.Mods), Text: kc.Text}
 			// lock states reported by a host speaking the kitty protocol are not
 			// part of the chord: same bytes with Caps Lock / Num Lock on
